@@ -60,6 +60,14 @@ Section Assoc.
     && forallb (fun kv => match alookup (fst kv) b with Some v => veqb (snd kv) v | None => false end) a.
 End Assoc.
 
+(* defaultdict(list): d[k].extend(ws)   (d[k].append(w) is d[k].extend([w])) *)
+Definition dict_extend {K W} (keqb : K -> K -> bool) (d : list (K * list W)) (k : K) (ws : list W)
+  : list (K * list W) :=
+  match alookup keqb k d with
+  | Some l => aset keqb k (l ++ ws) d
+  | None => d ++ [(k, ws)]
+  end.
+
 Definition names_eqb : list (stype * list string) -> list (stype * list string) -> bool :=
   dict_eqb stype_eqb (list_eqb String.eqb).
 
@@ -315,11 +323,7 @@ Section Cat.
   (* feat_list_dict[stype].append(feat) for every frame, every stype *)
   Definition group_feats (tfs : list tframe) : list (stype * list feat) :=
     fold_left (fun acc tf =>
-                 fold_left (fun acc' sx =>
-                              match alookup stype_eqb (fst sx) acc' with
-                              | Some l => aset stype_eqb (fst sx) (l ++ [snd sx]) acc'
-                              | None => acc' ++ [(fst sx, [snd sx])]
-                              end) (feats tf) acc)
+                 fold_left (fun acc' sx => dict_extend stype_eqb acc' (fst sx) [snd sx]) (feats tf) acc)
               tfs [].
 
   (* _cat_helper *)
@@ -357,11 +361,7 @@ Section Cat.
   (* col_names_dict[stype].extend(...) for every frame, every stype *)
   Definition group_names (tfs : list tframe) : list (stype * list string) :=
     fold_left (fun acc tf =>
-                 fold_left (fun acc' sc =>
-                              match alookup stype_eqb (fst sc) acc' with
-                              | Some l => aset stype_eqb (fst sc) (l ++ snd sc) acc'
-                              | None => acc' ++ [(fst sc, snd sc)]
-                              end) (names tf) acc)
+                 fold_left (fun acc' sc => dict_extend stype_eqb acc' (fst sc) (snd sc)) (names tf) acc)
               tfs [].
 
   (* _cat_col *)
@@ -376,17 +376,17 @@ Section Cat.
     if existsb (fun sc => has_dup (snd sc)) nm then None              (* duplicates within a stype *)
     else if has_dup (flat_map snd nm) then None                       (* duplicates across stypes *)
     else
-      fs <- cat_helper tfs 1 ;;
-      (* without features: num_rows = len(tf_list[0]), all parts must agree *)
-      ov <- match fs with
-            | [] => ls <- mapM tf_num_rows tfs ;;
-                    match ls with
-                    | [] => None
-                    | n0 :: _ => if forallb (Nat.eqb n0) ls then Some (Some n0) else None
-                    end
-            | _ => Some None
-            end ;;
-      tf_mk fs nm yy ov.
+      (* all parts must have the same number of rows: any(len(tf) != len(tf_list[0])) *)
+      ls <- mapM tf_num_rows tfs ;;
+      match ls with
+      | [] => None                                                    (* tf_list[0] : IndexError *)
+      | n0 :: _ =>
+          if negb (forallb (Nat.eqb n0) ls) then None
+          else
+            fs <- cat_helper tfs 1 ;;
+            (* without features the number of rows is carried explicitly: len(tf_list[0]) *)
+            tf_mk fs nm yy (match fs with [] => Some n0 | _ => None end)
+      end.
 
   (* torch_frame.cat(tf_list, dim) / _cat_tensor_frame; dim as given (no negative normalisation) *)
   Definition tf_cat (tfs : list tframe) (dim : Z) : option tframe :=
